@@ -320,6 +320,16 @@ impl W {
         for (n, t) in fs.iter().skip(1) {
             std::fs::write(dir.join(format!("{n}.roto")), t).map_err(|e| ("io".to_string(), e.to_string()))?;
         }
+        if c.chance(150) {
+            // directories without a mod.roto are not modules: what they hold does not belong to the script,
+            // and the module files next to them still do
+            for n in [".git", "assets", "0docs", "zz_data", "Target", "m_notes", "b.d", "__cache__"] {
+                let sd = dir.join(n);
+                std::fs::create_dir_all(&sd).map_err(|e| ("io".to_string(), e.to_string()))?;
+                std::fs::write(sd.join("broken.roto"), "fn broken( {\n").map_err(|e| ("io".to_string(), e.to_string()))?;
+                std::fs::write(sd.join("t.roto"), "test zz_never_runs { reject }\n").map_err(|e| ("io".to_string(), e.to_string()))?;
+            }
+        }
         let run = |args: &[&str]| -> Result<(bool, String), (String, String)> {
             let out = Command::new(&self.cli).args(args).output().map_err(|e| ("io".to_string(), e.to_string()))?;
             Ok((out.status.success(), String::from_utf8_lossy(&out.stdout).to_string()))
